@@ -211,7 +211,8 @@ def gen_models(chk, n):
             parts = [rng.choice(pool) for _ in range(rng.randrange(1, 4))]
             if kind is M.Expression and rng.random() < 0.5:
                 parts = [M.Symbol(rng.choice(["quote", "unquote", "unquote-splice", "quasiquote", "unpack-iterable",
-                                              "unpack-mapping", ".", "..", "annotate"]), from_parser=True)] + parts[:rng.randrange(1, 3)]
+                                              "unpack-mapping", ".", "..", "annotate"] + pc.SUGAR_LOOKALIKES), from_parser=True)] \
+                    + parts[:rng.randrange(1, 3)]
             out.append(("<assembled>", kind(parts)))
     return out[:n]
 
@@ -221,7 +222,8 @@ FIXED_TEXTS = ['f"{a :>{w}}"', "#[[\n\nx]]", 'f"{ {1 2}}"', "#[f[\n\na{x}b]f]", 
                'f"{a :{{}"', 'f"{a :\\r}"', "(unquote @a)", "~@a", "#* x", "(. None a b)", "..a.b", "a.b.c", 'f"{x = }"',
                'f"{x !r :>5}"', 't"a{x}b"', "#[f[a{x}b]f]", "{1 2 3}", ":a", ":", "''a", "`(a ~b ~@c)", "#^ int x",
                'b"a\\xff"', '"a\\"b\'"', 'f"a{{b}}\\"c"', '#[x[a"b]x]', 'f"{a ! }"', "1e5", "NaN", "-Inf", "1+2j", "NaNj",
-               'f"{"a"}"', 'f"{f"{x}"}"', "#{}", "#()", "()", 'f""', "(quote a b)", "(quote)", "(. a)", "[a . b]", "(unquote @a.b)", "~ @a.b", "(unquote @.b)", "#[f[{a\r= }]f]",
+               'f"{"a"}"', 'f"{f"{x}"}"', "#{}", "#()", "()", 'f""', "(quote a b)", "(quote)", "(. a)", "[a . b]", "(unquote @a.b)", "~ @a.b", "(unquote @.b)", "(unquote_splice xs)", "(unpack_iterable x)",
+               "(unpack_mapping (quote_ y))", "[(ｑuote x) (Quote x) (unquote_ x)]", "'(unquote_splice [a (unpack_iterable b)])", "#[f[{a\r= }]f]",
                '"\\N{BULLET}\\x00\\ud800"', "#[==[]=]==]"]
 
 
